@@ -150,7 +150,7 @@ def canon(v):
     if v is None:
         return ('N',)
     if isinstance(v, Obj):
-        return ('s', f'o{v.k}')
+        return ('o', f'o{v.k}')
     if isinstance(v, (bool, np.bool_)):
         return ('b', bool(v))
     if isinstance(v, (bytes, np.bytes_)):
@@ -182,6 +182,8 @@ def parse_val(tok):
         return ('n', Fraction(v))
     if k == 's':
         return ('s', v)
+    if k == 'o':
+        return ('o', v)
     if k == 'b':
         return ('b', v == '1')
     raise Broken(f'cannot parse model value {tok!r}')
@@ -282,9 +284,9 @@ def tok_to_py(tok, dtype=None):
     v = parse_val(tok)
     if v[0] == 'n':
         return int(v[1]) if tok.startswith('i:') else float(v[1])
+    if v[0] == 'o':
+        return Obj(int(v[1][1:]))
     if v[0] == 's':
-        if dtype == 'obj':
-            return Obj(int(v[1][1:]))
         return v[1]
     if v[0] == 'b':
         return v[1]
@@ -702,7 +704,7 @@ def gen_value(rng, dtype):
         return 's:' + rng.choice(STRS)
     if dtype == 'bool':
         return 'b:' + rng.choice('01')
-    return f's:o{rng.randint(0, 4)}'
+    return f'o:o{rng.randint(0, 4)}'
 
 
 def gen_samples(rng, dtype, dumps, period):
@@ -901,6 +903,9 @@ def fix_setg_dtypes(case, dtypes):
     """a name that receives another getter through cache[name] = getter changes dtype, and the keyword properties
     of every earlier read of that name stick to it: keep only dtype-independent properties on such names"""
     changed = set(op[1] for op in case['ops'] if op[0] == 'setg')
+    for op in case['ops']:            # names that an add_aliases call derives from such a name
+        if op[0] == 'alias':
+            changed |= set(n.replace(op[2], op[1]) for n in list(changed) if n.endswith(op[2]))
     for op in case['ops']:
         if op[0] == 'get' and op[1] in changed:
             op[4] = {k: v for k, v in op[4].items() if k in ('o', 'x')}
@@ -1181,9 +1186,9 @@ def corpus_cases():
 def run(ctx):
     register(ctx)
     build = common.build_and_audit('C12', ctx.tier)
-    n_single = ctx.q(900, 24000)
-    n_concat = ctx.q(300, 8000)
-    n_clean = ctx.q(400, 10000)
+    n_single = ctx.q(2400, 60000)
+    n_concat = ctx.q(900, 20000)
+    n_clean = ctx.q(700, 20000)
     glue_interp(ctx, ctx.q(100, 2000))
     cases = corpus_cases()
     cases += [gen_single(ctx.rng) for _ in range(n_single)]
